@@ -263,6 +263,16 @@ def check_trees(case, ctx):
 
         ts = MultiSigTapScript([p.point for p in chosen], k)
         require(ts.commands == leaf.tap_script.commands, "trees/leaf_script_mismatch")
+        others = [lf for lf in leaves if lf is not leaf]
+        if others and case["amount"] % 2:
+            # the input was first prepared for ANOTHER subset's leaf, then the witness was cleared and the
+            # input prepared again for this one (a wallet offering the spend to one group after another)
+            other = others[case["amount"] % len(others)]
+            xs_other = leaf_keys(other)
+            ts_other = MultiSigTapScript([p.point for p in privs if p.point.xonly() in xs_other], k)
+            tx.initialize_p2tr_multisig(0, tree.control_block(internal, other), ts_other)
+            tin.witness.items = []
+            ctx.label("input_prepared_for_another_leaf_first")
         tx.initialize_p2tr_multisig(0, cb, ts)
         hts = list(case.get("tap_hts", []))[: len(chosen)] or [0]
         if len(set(hts)) >= 2:
